@@ -141,6 +141,15 @@ def c01_class(r):
         for key in ("RuntimeVisibleTypeAnnotations", "RuntimeInvisibleTypeAnnotations"):
             for ta in a.get(key) or []:
                 cl.append("target/" + str((ta.get("target") or {}).get("kind")))
+    for level, members in (("class", [facts]), ("field", facts.get("fields") or []), ("method", facts.get("methods") or [])):
+        for m in members:
+            a = m.get("attrs")
+            for k in (a if isinstance(a, dict) else {}):
+                if k != "Code":
+                    cl.append("attr/%s:%s" % (level, k))
+    rec = (facts.get("attrs") or {}).get("Record") if isinstance(facts.get("attrs"), dict) else None
+    if rec is not None:
+        cl.append("record/%s" % ("empty" if not rec else "components"))
     cl += ["end/" + t for t in sorted(_ends(facts))]
     cl.append("enc/pool:%s" % enc.get("pool_order"))
     if (enc.get("pool_pad") or 0) > 255:
@@ -276,7 +285,16 @@ P = {
     "i2s_n": {"quick": 700, "thorough": 5000},
     "classify_vec": c01_class,
     "classify_i2s": c01_class_i2s,
-    "required_classes": ["fam/" + f for f in ("shape", "branch", "pair", "exc", "dbg", "frm", "all", "ver")]
+    "required_classes": ["fam/" + f for f in ("shape", "branch", "pair", "exc", "dbg", "frm", "all", "ver", "members")]
+                        + ["attr/class:" + a for a in ("SourceFile", "SourceDebugExtension", "Signature", "InnerClasses", "EnclosingMethod", "NestHost", "NestMembers",
+                                                        "PermittedSubclasses", "Deprecated", "Synthetic", "RuntimeVisibleAnnotations", "RuntimeVisibleTypeAnnotations",
+                                                        "Module", "ModulePackages", "ModuleMainClass", "Record", "unknown")]
+                        + ["attr/field:" + a for a in ("ConstantValue", "Signature", "Deprecated", "Synthetic", "RuntimeInvisibleAnnotations",
+                                                        "RuntimeVisibleTypeAnnotations", "unknown")]
+                        + ["attr/method:" + a for a in ("Exceptions", "Signature", "MethodParameters", "RuntimeVisibleParameterAnnotations",
+                                                         "RuntimeInvisibleParameterAnnotations", "RuntimeVisibleAnnotations", "RuntimeInvisibleTypeAnnotations",
+                                                         "AnnotationDefault", "Deprecated", "unknown")]
+                        + ["record/empty", "record/components"]
                         + ["op/" + o for o in _SHAPE_OPS]
                         + ["ldc/" + k for k in ("int", "float", "long", "double", "string", "class", "method_handle", "method_type", "dynamic", "dynamic2")]
                         + ["form/ldc/short", "form/ldc/w", "form/load/short", "form/load/plain", "form/load/wide", "form/store/short", "form/store/plain",
